@@ -7,9 +7,9 @@ def run(chk):
     thorough = chk.tier == "thorough"
     for p in (17, 193) + ((40961,) if thorough else ()):
         scn_raw, n_raw = pc.scenarios(chk, p, kind="run")
-        pc.record_and_validate(chk, p, "raw", scn_raw, n_raw if thorough else 150, "raw-p%d" % p)
+        pc.record_and_validate(chk, p, "raw", scn_raw, (n_raw if p != 40961 else min(n_raw, 200)) if thorough else 150, "raw-p%d" % p, nchunks=14)
         scn, n = pc.scenarios(chk, p)
-        pc.record_and_validate(chk, p, "tamper", scn, (n if p == 17 else 30) if thorough else (12 if p == 17 else 3), "tamper-p%d" % p, nchunks=14)
+        pc.record_and_validate(chk, p, "tamper", scn, (n if p == 17 else (30 if p == 193 else 8)) if thorough else (12 if p == 17 else 3), "tamper-p%d" % p, nchunks=14)
     chk.exhaustive = False
     chk.explanation = (
         "Impl->spec trace validation of adversarial runs on GF(17)/GF(193)" + ("/GF(40961)" if thorough else "") + ": (raw) every valid and invalid input vector of the "
@@ -18,8 +18,7 @@ def run(chk):
         "every byte position (strided for long messages) of the public share, each input share, each verifier share and the verifier message is flipped, and "
         "verifier shares are dropped/duplicated. For every call TLC recomputes the exact verdict (accept/reject at verify_init, verifier_shares_to_message, "
         "verify_next, or undecodable) and every output byte from the recorded XOF table: on a tiny field the model's exact accept set is the oracle, so a relaxed "
-        "check (partial seed comparison, missing share-count check, unchecked circuit output) shows up as a verdict mismatch. The soundness bound itself is "
-        "checked on the model (MC_Snd).")
+        "check (partial seed comparison, missing share-count check, unchecked circuit output) shows up as a verdict mismatch.")
     chk.assumptions = ["arbitrary (non-honest) proofs are explored only as single-bit deviations of honest proofs",
                        "on deployed fields only outcome-level checks apply (k-key rule); see DESIGN.md"]
 
